@@ -231,3 +231,34 @@ R.loop(
     var_kinds={"current_command": "ref Command?", "next_command": "ref Command", "named_commands": "ref CommandCollection"},
     fingerprint="name in arguments_to_test",
 )
+
+# ---- create_resolved_command -------------------------------------------------------------------------------------
+M_RAW = "clikit.api.args.raw_args"
+M_APPI = "clikit.api.application.application"
+R.shape("RawArgs", external=True, _tokens="list[str]")
+R.contract(M_RAW + ":RawArgs.tokens", params={}, returns="list[str]", ensures=["result is self._tokens"], modifies=[],
+           assumed=True, note="the token list of the raw arguments (ArgvArgs / StringArgs: C08)").is_property = True
+R.shape("Application", external=True, g_named="ref CommandCollection", g_default="ref CommandCollection")
+R.contract(M_APPI + ":Application.named_commands", params={}, returns="ref CommandCollection",
+           ensures=["result is self.g_named"], modifies=[], assumed=True).is_property = True
+R.contract(M_APPI + ":Application.default_commands", params={}, returns="ref CommandCollection",
+           ensures=["result is self.g_default"], modifies=[], assumed=True).is_property = True
+R.contract(M_DEF + ":DefaultResolver.get_options_to_test", params={"tokens": "iter[str]"}, returns="list[str]",
+           ensures=["fresh(result)", "iter_seq(tokens) == old(iter_seq(tokens))"], modifies=["ITER(tokens)"], assumed=True,
+           note="option names behind the leading tokens; they never take part in the selection (process_options.post)")
+R.shape("ResolvedCommand", _command="ref Command", _args="ref Args?")
+R.contract(M_RES + ":ResolveResult.command", params={}, returns="ref Command", ensures=["result is self._command"],
+           modifies=[]).is_property = True
+R.contract(M_RES + ":ResolveResult.parsed_args", params={}, returns="ref Args?", raises={"Exception": "True"},
+           modifies=["self._parsed", "self._parsed_args", "self._parse_error"], assumed=True).is_property = True
+R.contract(M_RES + ":ResolveResult.parse_error", params={}, returns="exc CannotParseArgsException",
+           requires=["not parsable(self._command, self._raw_args)"], raises={"Exception": "True"},
+           modifies=["self._parsed", "self._parsed_args", "self._parse_error"], assumed=True,
+           note="the error of the (failed) lazy parse").is_property = True
+CRC = M_DEF + ":DefaultResolver.create_resolved_command"
+R.contract(
+    CRC, params={"result": "ref ResolveResult"}, returns="ref ResolvedCommand",
+    ensures=["fresh(result)", "result._command is arg_result._command", "parsable(arg_result._command, arg_result._raw_args)"],
+    raises={"Exception": "True"},
+    modifies=["result._parsed", "result._parsed_args", "result._parse_error"],
+)
